@@ -453,7 +453,7 @@ def _patterns(nmax, both_ends=True):
 
 def _new_stats():
     return dict(calls=0, excluded=0, amb_frames=0, judged_present=0, nsig={}, trajs=0, ks_pairs=0, ks_excl=0,
-                ks_bonds=0, ks_three_plus=0, site_out={}, ks_notjudged={}, ks_err=0.0, ks_calls=0)
+                ks_bonds=0, ks_three_plus=0, site_out={}, ks_notjudged={}, ks_err=0.0, ks_calls=0, hist_calls=0, hist_seqs=0)
 
 
 _CTX = {}
@@ -1025,6 +1025,263 @@ def run_memory_family(ctx_repo, scratch, only=None):
     return recs, counts
 
 
+# ------------------------------------------------------------------------------------------------------
+# History layer: several topologies analysed back to back inside ONE process.
+#
+# The result of every call must be a function of ITS trajectory and arguments only.  The topologies of one family have
+# identical layout (atom/residue/chain indices), identical bonds and identical residue names and differ only in the element
+# or the name of the donor heavy atom, the hydrogen, the acceptor (so anything remembered between calls under a key that
+# ignores elements / names shows up).  Sequences: [v, w] with two Topology objects (both orders occur, the neighbour
+# relation is symmetric), and [v -> w -> v] on ONE Topology object edited in place (atom.element / atom.name / residue.name)
+# and restored.  Every single result is compared with the brute-force reference of the topology it was computed for.
+
+H_EL_D = ["O", "N", "C"]          # element of the side-chain donor heavy atom (SER "OG")
+H_EL_H = ["H", "C"]               # element of the atom bonded to it ("HG")
+H_EL_A = ["O", "N", "C"]          # element of the side-chain acceptor (ASN "OD1")
+H_NM_A = ["OD1", "O"]             # its name: side chain / backbone name (matters for sidechain_only)
+H_EL_X = ["N", "C"]               # element of the ligand atom carrying a hydrogen
+H_AXES = ["donor-element", "hydrogen-element", "acceptor-element", "acceptor-name", "ligand-donor-element"]
+H_IDX = dict(XG=6, HG=7, XD=15, X1=17)
+
+
+def hist_variants():
+    return [(d, h, a, na, x) for d in H_EL_D for h in H_EL_H for a in H_EL_A for na in H_NM_A for x in H_EL_X]
+
+
+def hist_atoms(v):
+    d, h, a, na, x = v
+    ser = [("N", "N"), ("H", "H"), ("CA", "C"), ("C", "C"), ("O", "O"), ("CB", "C"), ("OG", d), ("HG", h)]
+    asn = [("N", "N"), ("H", "H"), ("CA", "C"), ("C", "C"), ("O", "O"), ("CB", "C"), ("CG", "C"), (na, a)]
+    lig = [("C1", "C"), ("X1", x), ("HX", "H"), ("O1", "O")]
+    hoh = [("O", "O"), ("H1", "H"), ("H2", "H")]
+    atoms = []
+    for ri, (rn, ch, lst) in enumerate((("SER", 0, ser), ("ASN", 0, asn), ("LIG", 1, lig), ("HOH", 2, hoh))):
+        atoms += [(nm, el, rn, ri, ch) for nm, el in lst]
+    return atoms
+
+
+H_BONDS = [(0, 1), (0, 2), (2, 3), (3, 4), (2, 5), (5, 6), (6, 7),
+           (8, 9), (8, 10), (10, 11), (11, 12), (10, 13), (13, 14), (14, 15), (3, 8),
+           (16, 17), (17, 18), (16, 19), (20, 21), (20, 22)]
+
+
+def hist_xyz(seed):
+    """One frame (plus a second, slightly displaced): three designed contacts, everything else >= 0.45 nm apart.
+    site 1  SER XG-HG ... ASN XD      (r_HA 0.19, ~177 deg)
+    site 2  LIG X1-HX ... SER O       (r_HA 0.195)
+    site 3  ASN N-H   ... HOH O       (r_HA 0.20; control that never changes)"""
+    jit = grids.jitter(23, 3, 0.01, seed)
+    x = np.zeros((23, 3))
+    for k in range(23):
+        x[k] = [3.0 + 0.45 * (k % 6), 3.0 + 0.45 * (k // 6), 3.0]
+    p1, p2, p3 = np.array([1.0, 1.0, 1.0]), np.array([2.0, 1.0, 1.0]), np.array([1.0, 2.0, 1.0])
+    x[6], x[7], x[15] = p1, p1 + [0.1, 0, 0], p1 + [0.29, 0.01, 0]
+    x[17], x[18], x[4] = p2, p2 + [0, 0.1, 0], p2 + [0, 0.295, 0.01]
+    x[8], x[9], x[20] = p3, p3 + [0.1, 0, 0], p3 + [0.3, 0.005, 0]
+    x[21], x[22] = x[20] + [0.06, 0.08, 0], x[20] + [0.06, -0.08, 0]
+    x = x + jit
+    return np.array([x, x + 0.003 * jit[::-1]], np.float32)
+
+
+def _hist_ref(atoms, x64, ew, sc):
+    tr = np.array(hr.hbond_triplets(atoms, H_BONDS, ew, sc, True), int).reshape(-1, 3)
+    if len(tr) == 0:
+        z = np.zeros(0, bool)
+        return tr, z, z, np.zeros((x64.shape[0], 0), bool), np.zeros((x64.shape[0], 0), bool)
+    g = hr.hbond_geometry(x64, tr, None)
+    err = hr.err_model(x64, None)
+    pb, ab, _n = hr.baker_hubbard_ref(g, 0.1, 0.25, 120.0, err)
+    pw, aw = hr.wernet_nilsson_ref(g, err)
+    return tr, pb, ab, pw, aw
+
+
+def _hist_set_variant(top, v):
+    """Edit a Topology object in place so that it describes variant v."""
+    import mdtraj as md
+    d, h, a, na, x = v
+    at = list(top.atoms)
+    at[H_IDX["XG"]].element = md.element.get_by_symbol(d)
+    at[H_IDX["HG"]].element = md.element.get_by_symbol(h)
+    at[H_IDX["XD"]].element = md.element.get_by_symbol(a)
+    at[H_IDX["XD"]].name = na
+    at[H_IDX["X1"]].element = md.element.get_by_symbol(x)
+
+
+def hist_sequences(quick):
+    """[(mode, [variants...], changed axis)]: every variant with each of its single-axis neighbours."""
+    V = hist_variants()
+    axes_vals = [H_EL_D, H_EL_H, H_EL_A, H_NM_A, H_EL_X]
+    seqs = []
+    for v in V:
+        for ax, vals in enumerate(axes_vals):
+            for val in vals:
+                if val == v[ax]:
+                    continue
+                w = tuple(val if k == ax else v[k] for k in range(5))
+                seqs.append(("two-objects", [v, w], H_AXES[ax]))
+                seqs.append(("in-place", [v, w, v], H_AXES[ax]))
+    if not quick:
+        # all ordered pairs of variants (several axes changed at once), two objects
+        for v in V:
+            for w in V:
+                if sum(a != b for a, b in zip(v, w)) >= 2:
+                    seqs.append(("two-objects", [v, w], "several"))
+    return seqs
+
+
+def work_hist(item):
+    """item = (item index, list of sequence indices): all sequences of the item run back to back in this process."""
+    k, idxs = item
+    stats, recs = _new_stats(), []
+    run_hist_item(k, idxs, _CTX["seed"], _CTX["quick"], stats, recs)
+    return recs, stats
+
+
+def run_hist_item(k, idxs, seed, quick, stats, recs, upto=None):
+    import mdtraj as md
+    seqs = hist_sequences(quick)
+    xyz = hist_xyz(seed)
+    x64 = xyz.astype(np.float64)
+    refs = {}
+
+    def ref(v, ew, sc):
+        key = (v, ew, sc)
+        if key not in refs:
+            refs[key] = _hist_ref(hist_atoms(v), x64, ew, sc)
+        return refs[key]
+
+    def rec(sig, detail, si):
+        stats["nsig"][sig] = stats["nsig"].get(sig, 0) + 1
+        if stats["nsig"][sig] <= 2:
+            recs.append((sig, detail, dict(family="hist", item=k, idxs=list(idxs), upto=si, seed=seed, sig=sig)))
+
+    def judge(fn, got, tr, pres, amb, mode, axis, step, v, si, flags, frame=None):
+        stats["calls"] += 1
+        stats["hist_calls"] += 1
+        want, maybe = _set(tr[pres & ~amb]), _set(tr[amb])
+        g = np.asarray(got)
+        g = g.reshape(0, 3) if g.size == 0 else g
+        gs = _set(g)
+        for kind, bad in (("extra", gs - want - maybe), ("missing", want - gs)):
+            if bad:
+                t = sorted(bad)[0]
+                at = hist_atoms(v)
+                rec("history|%s|%s|%s|changed=%s" % (fn, kind, mode, axis),
+                    "sequence #%d %s step %d (variant donor=%s hyd=%s acc=%s/%s ligand=%s) %s%s: %s %s %s; the reference for THIS "
+                    "topology gives %s" % (si, mode, step, v[0], v[1], v[2], v[3], v[4], flags,
+                                          "" if frame is None else " frame %d" % frame, kind, t, [at[i][:2] for i in t], sorted(want)), si)
+        if len(gs) != len(g):
+            rec("history|%s|duplicate-rows|%s|changed=%s" % (fn, mode, axis), "repeated rows", si)
+
+    flagsets = [(True, False), (False, False), (True, True), (False, True)]
+    for si in idxs:
+        if upto is not None and si > upto:
+            break
+        mode, vs, axis = seqs[si]
+        stats["hist_seqs"] += 1
+        # the same flags for the whole sequence; wernet_nilsson right after baker_hubbard on the same object as well
+        for (ew, sc) in flagsets:
+            if mode == "two-objects":
+                tops = [make_md_topology(hist_atoms(v), H_BONDS) for v in vs]
+            else:
+                one = make_md_topology(hist_atoms(vs[0]), H_BONDS)
+                tops = [one] * len(vs)
+            for step, v in enumerate(vs):
+                if mode == "in-place":
+                    _hist_set_variant(tops[step], v)
+                traj = md.Trajectory(xyz.copy(), tops[step])
+                tr, pb, ab, pw, aw = ref(v, ew, sc)
+                flags = "exclude_water=%s sidechain_only=%s" % (ew, sc)
+                try:
+                    got = md.baker_hubbard(traj, freq=0.1, exclude_water=ew, sidechain_only=sc)
+                    judge("baker_hubbard", got, tr, pb, ab, mode, axis, step, v, si, flags)
+                    gw = md.wernet_nilsson(traj, exclude_water=ew, sidechain_only=sc)
+                    for f in range(xyz.shape[0]):
+                        judge("wernet_nilsson", gw[f], tr, pw[f], aw[f], mode, axis, step, v, si, flags, frame=f)
+                except Exception as e:  # noqa: BLE001
+                    rec("history|exception|%s|%s" % (type(e).__name__, mode), "%s: %s (sequence #%d step %d %s)"
+                        % (type(e).__name__, e, si, step, flags), si)
+            if mode == "in-place":
+                _hist_set_variant(tops[0], vs[0])
+
+
+# Kabsch-Sander depends on atom names (N, CA, C, O) and the residue name PRO: same kind of history
+
+KSH_EDITS = [("base", None), ("donor N renamed", ("atom", "D", "N", "NX")), ("acceptor O renamed", ("atom", "A", "O", "OX")),
+             ("acceptor C renamed", ("atom", "A", "C", "CX")), ("donor CA renamed", ("atom", "D", "CA", "CX")),
+             ("donor residue named PRO", ("res", "D", "PRO"))]
+
+
+def _ksh_base(seed):
+    b = KSBuilder()
+    rots = grids.generic_rotations(4, seed)
+    ids = []
+    for k in range(2):
+        a1, a2, phi = np.pi, np.radians(150.0 + 30 * k), 0.8 * k
+        root = ks_root(a1, a2, phi) or 0.2
+        ids.append(ks_unit(b, np.array([0.8 + 1.4 * k, 0.8, 0.8]), rots[k], "ALA", root * 0.7, a1, a2, phi, acc_first=(k == 1)))
+    return b.atoms, np.array([b.xyz], np.float32), ids[0]
+
+
+def _ksh_apply(atoms, ids, edit):
+    """atoms list of the edited topology (plain data)."""
+    if edit is None:
+        return list(atoms)
+    out = []
+    for (nm, el, rn, ri, ch) in atoms:
+        if edit[0] == "atom" and ri == ids[edit[1]] and nm == edit[2]:
+            nm = edit[3]
+        if edit[0] == "res" and ri == ids[edit[1]]:
+            rn = edit[2]
+        out.append((nm, el, rn, ri, ch))
+    return out
+
+
+def _ksh_res(atoms):
+    res = {}
+    for i, (nm, _el, rn, ri, ch) in enumerate(atoms):
+        d = res.setdefault(ri, dict(name=rn, chain=ch, N=-1, CA=-1, C=-1, O=-1))
+        if nm in ("N", "CA", "C", "O") and d[nm] < 0:
+            d[nm] = i
+    return [res[k] for k in sorted(res)]
+
+
+def run_ks_history(seed, stats, recs, only=None):
+    """base <-> each edited topology, both orders with two objects, and base -> edit -> base on one object in place."""
+    import mdtraj as md
+    atoms0, xyz, ids = _ksh_base(seed)
+    seqs = []
+    for name, ed in KSH_EDITS[1:]:
+        seqs.append(("two-objects", [None, ed], name))
+        seqs.append(("two-objects", [ed, None], name))
+        seqs.append(("in-place", [None, ed, None], name))
+    for qi, (mode, eds, name) in enumerate(seqs):
+        if only is not None and qi > only:
+            break
+        stats["hist_seqs"] += 1
+        one = ks_topology(atoms0) if mode == "in-place" else None
+        for step, ed in enumerate(eds):
+            atoms = _ksh_apply(atoms0, ids, ed)
+            if mode == "in-place":
+                top = one
+                for a_obj, (nm, _el, rn, _ri, _ch) in zip(top.atoms, atoms):
+                    a_obj.name = nm
+                    a_obj.residue.name = rn
+            else:
+                top = ks_topology(atoms)
+            sub = []
+            st2 = _new_stats()
+            judge_ks("history:%s" % name, atoms, xyz, _ksh_res(atoms), 0, 1, st2, sub, top=top)
+            stats["ks_calls"] += 1
+            stats["hist_calls"] += 1
+            for sig, detail, _rp in sub:
+                s2 = "history|%s|%s|%s" % (sig, mode, name.replace(" ", "-"))
+                stats["nsig"][s2] = stats["nsig"].get(s2, 0) + 1
+                if stats["nsig"][s2] <= 2:
+                    recs.append((s2, "sequence %s step %d: %s" % ([("base" if e is None else name) for e in eds], step, detail),
+                                 dict(family="hist-ks", upto=qi, seed=seed, sig=s2)))
+
+
 def run(ctx):
     _CTX.update(seed=ctx.seed, quick=ctx.quick)
     topo()
@@ -1063,6 +1320,14 @@ def run(ctx):
             for a in range(0, F - L + 1):
                 kitems.append((idx, a, a + L))
     kres = ctx.pmap(work_ks, kitems, chunksize=2)
+    # history layer: every item is one process analysing its sequences back to back
+    nseq = len(hist_sequences(quick))
+    nitem = 16
+    hitems = [(k, list(range(k, nseq, nitem))) for k in range(nitem)]
+    hres = list(ctx.pmap(work_hist, hitems, chunksize=1))
+    hst, hrecs = _new_stats(), []
+    run_ks_history(ctx.seed, hst, hrecs)
+    hres.append((hrecs, hst))
     mrecs, mcounts = run_memory_family(ctx.repo, ctx.scratch)
     ctx.report(mrecs)
     if mcounts["asan_harness_errors"]:
@@ -1071,7 +1336,7 @@ def run(ctx):
     if not mcounts["asan_available"]:
         ctx.assume("AddressSanitizer runtime not available: the kernel-seam memory check was skipped")
     tot = _new_stats()
-    for recs, st in list(res) + list(kres):
+    for recs, st in list(res) + list(kres) + hres:
         ctx.report(recs)
         for k, v in st.items():
             if k == "site_out":
@@ -1090,7 +1355,7 @@ def run(ctx):
     cov = {
         "evaluations": tot["calls"] + tot["ks_calls"] + 2 * mcounts["sentinel_cases"] + mcounts["asan_cases"],
         "ks_memory_cases": {"residue_lists": [c[1] for c in MEM_CASES], **mcounts},
-        "distinct_nontrivial": tot["trajs"] + len(kitems),
+        "distinct_nontrivial": tot["trajs"] + len(kitems) + tot["hist_seqs"],
         "rule": "one evaluation = one call of baker_hubbard / one frame of a wernet_nilsson call / one kabsch_sander call whose "
                 "complete result set is compared with the float64 oracle; distinct non-trivial = distinct trajectories "
                 "(family, cut-offs, k-of-n pattern, grid offset, cell) resp. distinct Kabsch-Sander frame windows; every one "
@@ -1099,6 +1364,9 @@ def run(ctx):
                     (items[0], items[len(items) // 2], items[-1])] +
                    [dict(family="ks", structure=_CTX["ks"][k[0]][0], frames=[k[1], k[2]]) for k in kitems[:1]],
         "exhaustive": True,
+        "history_layer": {"sequences": tot["hist_seqs"], "calls_judged": tot["hist_calls"], "variants": len(hist_variants()),
+                          "axes": H_AXES, "modes": ["two-objects [v,w]", "in-place [v->w->v]"], "processes": nitem,
+                          "kabsch_sander_edits": [e[0] for e in KSH_EDITS[1:]]},
         "trajectories_bh_wn": tot["trajs"], "ks_windows": len(kitems), "ks_calls": tot["ks_calls"],
         "ks_donor_acceptor_pairs_evaluated": tot["ks_pairs"], "ks_bonds_required": tot["ks_bonds"], "ks_donors_with_three_or_more_candidates": tot["ks_three_plus"],
         "ks_excluded_within_margin": tot["ks_excl"], "ks_not_judged": tot["ks_notjudged"],
@@ -1125,6 +1393,10 @@ def replay(ctx, rep):
         if rep["family"] == "ks-mem":
             r2, _c = run_memory_family(ctx.repo, ctx.scratch, only=rep["case"])
             recs += r2
+        elif rep["family"] == "hist":
+            run_hist_item(rep["item"], rep["idxs"], rep["seed"], ctx.quick, stats, recs, upto=rep["upto"])
+        elif rep["family"] == "hist-ks":
+            run_ks_history(rep["seed"], stats, recs, only=rep["upto"])
         elif rep["family"] == "ks":
             atoms = [tuple(a) for a in rep["atoms"]]
             xyz = np.array(rep["xyz"], np.float32)
